@@ -100,3 +100,74 @@ claim(
     "shape is reported for review.",
     "DESIGN.md section 5 C08",
 )
+
+claim(
+    "C14",
+    "TBL+FLOW+OWN",
+    "static: scope-chain order tables, push/pop pairing, who-may rules for binding constructs",
+    "Clauses: the three scope-chain constructions list their maps in the documented precedence "
+    "order; ReadOnlyChainMap prepends on push, pops the front and scans front to back; the one "
+    "scope push and the one loop-stack push are each followed by a try/finally that pops exactly "
+    "once and nothing else pushes or pops; extend/loop are context managers used only as with "
+    "items; for/tablerow/with/include/partials render their bodies inside extend/loop while "
+    "assign/capture/snippet bind through context.assign into locals; include renders on the "
+    "caller's context, never a copy; every lookup failure class in get/get_async/_resolve is "
+    "converted to env.undefined or the caller's default. Necessary conditions of 'innermost "
+    "binding wins, block names vanish after the block, include shares scope, missing -> undefined'.",
+    "Not decided: the value a particular path resolves to on particular data (dotted/bracketed/"
+    "negative-index/size/first/last semantics are value-level).",
+    "DESIGN.md section 5 C14",
+)
+
+claim(
+    "C15",
+    "FLOW",
+    "static: provenance (flow) rule on the context handed to render/call bodies",
+    "Full structural decision of what can reach an isolated context: render and call bodies run "
+    "only on the result of context.copy(...) without block_scope; the namespace given to copy is "
+    "built from the tag's evaluated arguments only; copy's isolated branch constructs the context "
+    "from ReadOnlyChainMap(namespace, self.globals) with none of locals/scope/loops/tag_namespace/"
+    "counters flowing into any constructor argument and nothing assigned afterwards; __init__ "
+    "creates fresh locals/counters/loops/tag_namespace; render disables include, call disables "
+    "include and block; Node.render* checks disabled tags before delegating and no node overrides "
+    "it. Hence for every caller and every partial the partial cannot observe or modify caller "
+    "locals, and cannot include.",
+    "Assumes RenderContext.copy is the only child-context factory (C15-COPY requires exactly that "
+    "at the two tags). Global data (template/environment globals) is visible by design.",
+    "DESIGN.md section 5 C15",
+)
+
+claim(
+    "C17",
+    "OWN",
+    "static: who-may rules over the enumerated state channels (memo sites, input mutation, AST mutation, module state)",
+    "Full structural decision for the enumerated channels: lru_cache/cache only on the three "
+    "configuration factories; no registered filter (80), evaluate*/render_to_output* method or "
+    "context lookup mutates a value aliased to a parameter or an evaluation result (in-place "
+    "methods, item/attribute stores, del, augmented assignment on the input sequence); no method "
+    "of the ~100 parse-tree classes stores to self outside __init__ and render-time code stores "
+    "attributes only on caught exceptions and per-render objects; no module- or class-level "
+    "container is mutated from a function; every render builds a new context from a copy of its "
+    "arguments. These are all the ways one render could alter its inputs, the template or a later "
+    "render, for every sequence of renders.",
+    "Aliasing is tracked per function (a helper that mutates its own parameter is flagged at the "
+    "helper, not the caller). Excluded by the property: current time, reloaded templates. The "
+    "caching loaders' shared template objects are decided under C23.",
+    "DESIGN.md section 5 C17",
+)
+
+claim(
+    "C27",
+    "FLOW",
+    "static: shape/flow rules on WithNode, CallNode.render_to_output* and CallNode.macro_args",
+    "Clauses: with-arguments are evaluated on the outer context before the namespace is pushed, "
+    "the namespace is exactly {name: evaluated value}, and the block is rendered once, only inside "
+    "`with context.extend(namespace)` (visibility limited to the block, shadowing by C14); the "
+    "macro namespace exposes evaluated surplus positionals as args and surplus keywords as kwargs, "
+    "binds each declared parameter to its evaluated argument or env.undefined(name); macro_args "
+    "starts from parameter defaults, pairs positionals with parameters in declaration order, then "
+    "applies keywords by name (surplus to excess_kwargs).",
+    "Not decided: the values a particular call produces. The macro rules are anchored on the "
+    "current shape of macro_args; an equivalent rewrite is reported for review.",
+    "DESIGN.md section 5 C27",
+)
